@@ -48,13 +48,14 @@ class StrictError(Exception):
 def strict_parse(line):
     """-> (tree | None, [problem strings]).  Duplicate keys at every object level, no NaN/Infinity."""
     problems = []
+    dups = {}  # id(object built by the hook) -> (the object, its repeated keys)
 
     def hook(pairs):
         keys = [k for k, _ in pairs]
+        d = dict(pairs)
         if len(set(keys)) != len(keys):
-            dup = sorted({k for k in keys if keys.count(k) > 1})
-            problems.append('duplicate-key:' + ','.join(dup))
-        return dict(pairs)
+            dups[id(d)] = (d, sorted({k for k in keys if keys.count(k) > 1}))
+        return d
 
     def const(name):
         raise StrictError(f'non-JSON constant {name}')
@@ -63,6 +64,21 @@ def strict_parse(line):
         tree = json.loads(line, object_pairs_hook=hook, parse_constant=const)
     except (ValueError, StrictError, RecursionError) as exc:
         return None, [f'unparseable:{type(exc).__name__}: {exc}'[:200]]
+    if dups:
+        # where each object with a repeated key sits: `duplicate-key:<keys>@<path of the object>`
+        def walk(node, path):
+            if isinstance(node, dict):
+                if id(node) in dups:
+                    problems.append('duplicate-key:' + ','.join(dups[id(node)][1]) + '@' + path)
+                for k, v in node.items():
+                    walk(v, path + '/' + k)
+            elif isinstance(node, list):
+                for v in node:
+                    walk(v, path + '/[]')
+
+        walk(tree, '')
+        if not any(p.startswith('duplicate-key:') for p in problems):  # the object itself was shadowed by its twin key
+            problems.extend('duplicate-key:' + ','.join(k) + '@?' for _, k in dups.values())
     return tree, problems
 
 
@@ -726,7 +742,16 @@ class Judge:
         for p in problems:
             tag = p.split(':', 1)
             if tag[0] == 'duplicate-key':
-                self.fail(f'duplicate-key:{kind}:{tag[1]}', f'a JSON event holds an object with a repeated key ({tag[1]})', case)
+                keys, _, where = tag[1].partition('@')
+                # one finding, one name: a repeated key inside the TUNNEL_ENCAP attribute object is the repeated sub-TLV
+                # defect whatever message drew it (built case, configured route, byte mutant); elsewhere the event kind names it
+                if '/attribute/tunnel-encap' in where:
+                    dkind = 'update-tunnel-encap-repeated-subtlv'
+                elif kind == 'update-tunnel-encap-repeated-subtlv':
+                    dkind = 'update-tunnel-encap-case-elsewhere'
+                else:
+                    dkind = kind
+                self.fail(f'duplicate-key:{dkind}:{keys}', f'a JSON event holds an object with a repeated key ({keys}) at {where}', case)
             else:
                 self.fail(f'json-unparseable:{name}:{kind}', f'a JSON event does not parse: {p}', case)
         if tree is None:
